@@ -4,6 +4,11 @@
 (*                 step), optionally preceded by a fixed line that leaves every component of the carried state set. *)
 (*  (2) "grammar": lines assembled from well-formed chunks (text | SGR | OSC 8 | other OSC/CSI | SO/SI | x BS |     *)
 (*                 two-character ESC sequences), up to three lines per case so that state is carried over.          *)
+(*  (3) "sgr":     every SGR sequence of at most MaxLen parameter groups from a menu that covers the ways of writing     *)
+(*                 a group (ordinary parameter, empty, legacy 38/48/58;..., colon groups incl. the empty colour-space    *)
+(*                 sub-parameter, renditions fzf cannot show), followed by one character.                                *)
+(*  (4) "items":   streams of Depth lines from a menu of line shapes (colours left open, closed, re-opened; one, two,    *)
+(*                 three fields), as items of the list with and without --with-nth (FzfAnsi Part C).                     *)
 (* Every state is checked against the design properties of FzfAnsi and printed (BEmit, GEmit) as a case with the      *)
 (* observation the specification predicts.                                                                           *)
 EXTENDS FzfAnsi, Json, IOUtils
@@ -45,12 +50,17 @@ PreLine == <<ESC, "[", "1", ";", "3", ";", "3", "1", ";", "4", "8", ";", "5", ";
 -------------------------------------------------------------------------------
 (* case record: the lines, the documented prediction, and - where a named deviation would change it - the          *)
 (* prediction under that deviation *)
+(* some ESC [ ... m of the line satisfies P (attribution only: which deviations are worth predicting for a case) *)
+SgrTokWith(x, P(_)) == \E p \in 1..(Len(x) - 1) : /\ x[p] = ESC /\ x[p + 1] = "["
+                                                  /\ LET e == CsiEnd(x, p, {}) IN e > 0 /\ x[e] = "m" /\ P(SubSeq(x, p, e))
 HasStripping(x) == \E i \in 1..Len(x) : x[i] \in Stripping
 Touches(ls, d) == \E i \in 1..Len(ls) : CASE d = "StAsCsi" -> Contains(ls[i], <<ESC, BSL>>)
                                             [] d = "SkipEmptyParam" -> Contains(ls[i], <<"[", ";">>) \/ Contains(ls[i], <<";", ";">>)
                                                                        \/ Contains(ls[i], <<";", "m">>)
                                             [] d = "OpenSpanAtEol" -> HasStripping(ls[i])
-Alts(ls, exp) == LET touched == {d \in {"StAsCsi", "SkipEmptyParam", "OpenSpanAtEol"} : Touches(ls, d)}
+                                            [] d = "MixedSep" -> SgrTokWith(ls[i], LAMBDA t : Has(t, ":") /\ Has(t, ";"))
+                                            [] d = "Sgr58" -> SgrTokWith(ls[i], LAMBDA t : Contains(t, <<"5", "8">>))
+Alts(ls, exp) == LET touched == {d \in {DevAll[i] : i \in 1..Len(DevAll)} : Touches(ls, d)}
                      idx == SelectSeq([i \in 1..Len(DevSets) |-> i], LAMBDA i : DevSets[i] \subseteq touched)
                      all == [k \in 1..Len(idx) |-> [dv |-> DevNames[idx[k]], exp |-> Predict(ls, Corners \cup DevSets[idx[k]])]]
                  IN SelectSeq(all, LAMBDA a : a.exp # exp)
@@ -96,11 +106,19 @@ NumSyms(n) == IF n < 10 THEN <<DigitSym(n)>> ELSE Append(NumSyms(n \div 10), Dig
 RECURSIVE JoinNums(_, _)
 JoinNums(ns, sep) == IF Len(ns) = 1 THEN NumSyms(ns[1]) ELSE NumSyms(ns[1]) \o <<sep>> \o JoinNums(Tail(ns), sep)
 
-Singles == {0, 1, 2, 3, 4, 5, 7, 9, 22, 23, 24, 25, 27, 29, 30, 31, 37, 39, 40, 41, 47, 49, 90, 97, 100, 107, 8, 28, 53}
+Singles == {0, 1, 2, 3, 4, 5, 7, 9, 22, 23, 24, 25, 27, 29, 30, 31, 37, 39, 40, 41, 47, 49, 90, 97, 100, 107, 8, 28, 53,
+            10, 20, 26, 50, 55, 59, 65, 73}
 ColourGroups == {<<38, 5, 0>>, <<38, 5, 1>>, <<38, 5, 9>>, <<38, 5, 255>>, <<38, 5, 38>>, <<38, 5, 5>>, <<48, 5, 48>>,
                  <<48, 5, 208>>, <<48, 5, 2>>, <<38, 2, 1, 2, 3>>, <<38, 2, 255, 0, 128>>, <<38, 2, 5, 2, 38>>,
-                 <<48, 2, 0, 0, 0>>, <<48, 2, 10, 20, 30>>}
+                 <<48, 2, 0, 0, 0>>, <<48, 2, 10, 20, 30>>, <<58, 5, 3>>, <<58, 5, 38>>, <<58, 2, 1, 2, 3>>, <<58, 2, 4, 48, 5>>}
+(* colon groups, which may stand among ';'-separated parameters *)
+ColonBodies == {JoinNums(<<38, 5, 9>>, ":"), JoinNums(<<48, 5, 208>>, ":"), JoinNums(<<38, 2, 1, 2, 3>>, ":"),
+                <<"3", "8", ":", "2", ":", ":", "1", ":", "2", ":", "3">>,
+                <<"4", "8", ":", "2", ":", ":", "1", "0", ":", "2", "0", ":", "3", "0">>,
+                JoinNums(<<58, 5, 3>>, ":"), JoinNums(<<58, 2, 1, 2, 3>>, ":"),
+                <<"5", "8", ":", "2", ":", ":", "4", ":", "5", ":", "7">>}
 Groups == {NumSyms(n) : n \in Singles} \cup {JoinNums(g, ";") : g \in ColourGroups} \cup {<<"0", "1">>, <<"0", "0">>}
+            \cup ColonBodies
 EmptyGroup == <<>>
 
 Texts == {<<c>> : c \in {"a", "e~", "m", "1", ";", "[", "K", " "}}
@@ -113,10 +131,7 @@ Osc8Open == {<<ESC, "]", "8", ";">> \o p \o <<";">> \o u \o t :
 Osc8Close == {<<ESC, "]", "8", ";", ";">> \o t : t \in Sts}
 OtherOsc == {<<ESC, "]", "0", ";", "a", BEL>>, <<ESC, "]", "1", "3", "3", ";", "a", ESC, BSL>>,
              <<ESC, "]", "4", ";", "1", ";", "a", BEL>>, <<ESC, "]", "5", "2", ":", "a", ESC, BSL>>}
-ColonSgr == {<<ESC, "[">> \o b \o <<"m">> :
-               b \in {JoinNums(<<38, 5, 9>>, ":"), JoinNums(<<48, 5, 208>>, ":"), JoinNums(<<38, 2, 1, 2, 3>>, ":"),
-                      <<"3", "8", ":", "2", ":", ":", "1", ":", "2", ":", "3">>,
-                      <<"4", "8", ":", "2", ":", ":", "1", "0", ":", "2", "0", ":", "3", "0">>}}
+ColonSgr == {<<ESC, "[">> \o b \o <<"m">> : b \in ColonBodies}
 OtherCsi == {<<ESC, "[", "K">>, <<ESC, "[", "0", "K">>, <<ESC, "[", "1", "K">>, <<ESC, "[", "2", "J">>, <<ESC, "[", "H">>,
              <<ESC, "[", "1", ";", "1", "H">>, <<ESC, "[", "?", "2", "5", "l">>, <<ESC, "[", "1", "@">>,
              <<ESC, "(", "B">>, <<ESC, ")", "B">>}
@@ -156,5 +171,93 @@ GNoSwallow == mode = "top" => Strip(cur) = plain /\ StripD(cur, Corners) = plain
 (* the grammar stays inside the well-formed domain, where colours are specified *)
 GWellFormed == LET p == Predict(GLines, Corners) IN \A i \in 1..Len(p) : p[i].wf
 GSpans == LET carry == IF done = <<>> THEN Default ELSE Colour(done[Len(done)], Default).final IN ColourShape(GCur, carry)
+(* the deviations named for parameter lists are local: they cannot be seen on lines without their trigger *)
+GDevLocal == LET ls == GLines
+                 none(c) == \A i \in 1..Len(ls) : ~Contains(ls[i], c) IN
+             /\ (\A i \in 1..Len(ls) : ~(Has(ls[i], ":") /\ Has(ls[i], ";"))) => Predict(ls, {"MixedSep"}) = Predict(ls, {})
+             /\ none(<<"5", "8">>) => Predict(ls, {"Sgr58"}) = Predict(ls, {})
 GEmit == steps = Depth => PrintT(<<"CASE", ToJson(Case(GLines))>>)
+-------------------------------------------------------------------------------
+(* (3) sgr: s is the parameter string, ng the number of groups in it *)
+SgrMenuFull == {NumSyms(n) : n \in {0, 1, 3, 4, 5, 22, 31, 39, 44, 49, 97, 100, 8, 10, 20, 26, 53, 59, 65, 73}} \cup {EmptyGroup}
+                 \cup {JoinNums(g, ";") : g \in {<<38, 5, 100>>, <<48, 5, 3>>, <<38, 2, 1, 2, 3>>, <<58, 5, 3>>, <<58, 2, 1, 2, 3>>, <<58, 5, 38>>}}
+                 \cup {JoinNums(g, ":") : g \in {<<38, 5, 100>>, <<48, 5, 3>>, <<38, 2, 1, 2, 3>>, <<58, 5, 3>>, <<58, 2, 1, 2, 3>>}}
+                 \cup {<<"3", "8", ":", "2", ":", ":", "1", ":", "2", ":", "3">>,
+                       <<"4", "8", ":", "2", ":", ":", "1", "0", ":", "2", "0", ":", "3", "0">>,
+                       <<"5", "8", ":", "2", ":", ":", "1", ":", "2", ":", "3">>}
+SgrMenuRed  == {NumSyms(n) : n \in {0, 1, 5, 31, 53, 59}} \cup {EmptyGroup}
+                 \cup {JoinNums(g, ";") : g \in {<<38, 5, 100>>, <<58, 5, 3>>, <<58, 2, 1, 2, 3>>}}
+                 \cup {JoinNums(g, ":") : g \in {<<38, 5, 100>>, <<58, 5, 3>>}}
+                 \cup {<<"4", "8", ":", "2", ":", ":", "1", "0", ":", "2", "0", ":", "3", "0">>,
+                       <<"5", "8", ":", "2", ":", ":", "1", ":", "2", ":", "3">>}
+SgrMenu == IF EnvOr("MENU", "full") = "red" THEN SgrMenuRed ELSE SgrMenuFull
+
+SInit == pre \in Pres /\ s = <<>> /\ GIdle
+SNext == /\ ng < MaxLen
+         /\ \E g \in SgrMenu : s' = (IF ng = 0 THEN g ELSE s \o <<";">> \o g)
+         /\ ng' = ng + 1 /\ pre' = pre /\ UNCHANGED <<done, cur, plain, mode, exotic, steps>>
+SLine == <<ESC, "[">> \o s \o <<"m", "a">>
+SLines == IF pre = 1 THEN <<PreLine, SLine>> ELSE <<SLine>>
+SWellFormed == LET p == Predict(SLines, Corners) IN \A i \in 1..Len(p) : p[i].wf
+SDevLocal == /\ ~(Has(s, ":") /\ Has(s, ";")) => Predict(SLines, {"MixedSep"}) = Predict(SLines, {})
+             /\ ~Contains(s, <<"5", "8">>) => Predict(SLines, {"Sgr58"}) = Predict(SLines, {})
+(* the colour of underlines and the renditions fzf cannot show change nothing: a parameter string made of them only   *)
+(* (and not empty: that would be a reset) leaves every component of the state as it was                               *)
+SInvisible == LET r == SgrParams(s) IN
+              /\ (s # <<>> /\ r[1] /\ \A i \in 1..Len(r[2]) : IF Plain(r[2][i]) THEN r[2][i][1] \in Unrepresented ELSE r[2][i][1] = 58)
+                 => Colour(SLine, Carry).final = Carry
+              /\ s \in {JoinNums(g, ";") : g \in {<<58, 5, 3>>, <<58, 2, 1, 2, 3>>, <<58, 5, 38>>}} => Colour(SLine, Carry).final = Carry
+SEmit == PrintT(<<"CASE", ToJson(Case(SLines))>>)
+
+-------------------------------------------------------------------------------
+(* (4) items: done = the lines after the sentinel *)
+Sp == " "
+Sgr0(b) == <<ESC, "[">> \o b \o <<"m">>
+Sentinel == <<"@", Sp, "@">>                  \* first line of every stream: the item under the cursor
+LineMenu == {
+  Sgr0(<<"3", "1">>) \o <<"a", "m", Sp, "a">>,                                             \* red left open, two fields
+  <<"K", Sp, "B">>,                                                                          \* plain, two fields
+  <<"c">>,                                                                                   \* plain, one field
+  Sgr0(<<>>) \o <<"H", Sp, "J">>,                                                            \* reset first
+  <<"a", Sp>> \o Sgr0(JoinNums(<<1, 48, 5, 208>>, ";")) \o <<"B">>,                          \* bold + 256-colour background from the second field on
+  <<"a">> \o Sgr0(<<"0">>) \o <<Sp, "B">>,                                                   \* reset at the end of the first field
+  Sgr0(JoinNums(<<38, 2, 1, 2, 3>>, ";")) \o <<"l">>,                                        \* 24-bit colour left open, one field
+  <<"M", Sp, "c">> \o Sgr0(<<"3", "2">>),                                                    \* colour opened by the last thing on the line
+  Sgr0(<<"4">>) \o <<"a", Sp>> \o Sgr0(<<"2", "4">>) \o <<"B", Sp, "c">>,                   \* three fields, underline on and off
+  Sgr0(JoinNums(<<97, 100>>, ";")) \o <<"a", Sp, "B">>,                                      \* bright colours left open
+  <<"a", Sp, "B", Sp, Sp, "c">>,                                                             \* three fields, plain
+  Sgr0(JoinNums(<<38, 5, 100>>, ":")) \o <<"a", Sp, "B">>,                                   \* colon form
+  Sgr0(<<"7">>) \o <<"a", Sp, "B">> \o Sgr0(<<"2", "7">>),                                   \* closed within the line
+  <<"e~", Sp>> \o Sgr0(JoinNums(<<3, 9>>, ";")) \o <<"e~">>,                                 \* non-ASCII, italic + strike left open
+  Sgr0(JoinNums(<<39, 49>>, ";")) \o <<"a", Sp, "B">>,                                       \* colours back to default, attributes stay
+  Sgr0(JoinNums(<<2, 5, 35>>, ";")) \o <<"l">> }                                             \* dim blink magenta, one field
+
+NInit == GIdle /\ s = <<>> /\ pre = 0
+NNext == /\ steps < Depth /\ steps' = steps + 1
+         /\ \E ln \in LineMenu : done' = Append(done, ln)
+         /\ UNCHANGED <<s, pre, cur, plain, mode, ng, exotic>>
+NNextSim == steps < Depth /\ NNext
+NLines == <<Sentinel>> \o done
+Rows(its) == [i \in 1..Len(its) |-> [text |-> its[i].text, attrs |-> its[i].attrs]]
+RECURSIVE Expand(_)                              \* one entry per character
+Expand(ar) == IF ar = <<>> THEN <<>> ELSE [i \in 1..ar[1][1] |-> ar[1][2]] \o Expand(Tail(ar))
+IsSuffix(a, b) == Len(a) <= Len(b) /\ SubSeq(b, Len(b) - Len(a) + 1, Len(b)) = a
+(* --with-nth 1.. shows what is shown without it (no line of the menu begins with a blank) *)
+NIdentity == Rows(Items(NLines, 1, Corners)) = Rows(Items(NLines, 0, Corners))
+(* without --with-nth an item shows what Part B says about its line *)
+NOneStream == LET a == Items(NLines, 0, Corners)
+                  b == Predict(NLines, Corners) IN
+              \A i \in 1..Len(a) : /\ a[i].text = b[i].text            \* no line of the menu ends with a blank
+                                   /\ Expand(a[i].attrs) = [k \in 1..Len(b[i].text) |-> [fg |-> AttrAt(b[i].attrs, k).fg,
+                                                            bg |-> AttrAt(b[i].attrs, k).bg, at |-> AttrAt(b[i].attrs, k).at]]
+(* hiding the first field does not change what the characters of the other fields show (every line >= 2 fields) *)
+NHiding == (\A i \in 1..Len(NLines) : Len(AwkFields(NLines[i])) >= 2) =>
+           LET a == Items(NLines, 1, Corners)
+               b == Items(NLines, 2, Corners) IN
+           \A i \in 1..Len(a) : IsSuffix(b[i].text, a[i].text) /\ IsSuffix(Expand(b[i].attrs), Expand(a[i].attrs))
+NWellFormed == \A f \in {0, 1, 2} : LET a == Items(NLines, f, Corners) IN \A i \in 1..Len(a) : a[i].wf
+ItemCase(ls) == [lines |-> ls,
+                 exp |-> [f \in 1..3 |-> Rows(Items(ls, f - 1, Corners))],                          \* f - 1 = 0: no --with-nth, 1: 1.., 2: 2..
+                 lag |-> [f \in 1..3 |-> Rows(Items(ls, f - 1, Corners \cup {"CarryLag"}))]]
+NEmit == steps = Depth => PrintT(<<"CASE", ToJson(ItemCase(NLines))>>)
 =============================================================================
